@@ -3,7 +3,7 @@
     loop, no sleep after), C05_while_ends_on_max, C05_while_sleeps_between (exactly the
     strategy's duration for that attempt number, between attempts only) apply verbatim with
     [iter := retry_iter] and [interval := backoff ...]; they are restated here for retry. *)
-From PV Require Import Engine EngineProofs Leaves GenProofs.
+From PV Require Import Engine EngineProofs Leaves GenProofs Ctl Control CtlProofs.
 From Coq Require Import QArith.
 Open Scope string_scope.
 Notation RG := (list val -> option string -> option string -> st -> R).
@@ -148,6 +148,17 @@ Theorem C06_jitter_bounds : forall jrc r d,
   jrc * d <= jitter_q jrc r d /\ jitter_q jrc r d <= d.
 Proof. exact jitter_bounds. Qed.
 Print Assumptions C06_jitter_bounds.
+
+(** * Tie B: one retry attempt READ FROM THE SOURCE ([RetryDecorator.exec_iteration], pypyr/dsl.py)
+    is the model's [retry_iter]: retryCounter written first; instructions pass; at max the error of
+    this attempt propagates; otherwise stopOn is consulted before retryOn, both against the name of
+    the error (its cause when it is a HandledError), formatted at that moment. *)
+Theorem C06_source_attempt_is_model : forall (rg : RG) (rp : RP) rc sp k max n s,
+  gen_retry_exec_iteration rc
+    (fun c => invoke rg rp sp (mkcnt (k_while k) (k_for k) (Some c))) n max s
+  = retry_iter rg rp rc sp k max n s.
+Proof. exact gen_retry_exec_iteration_is_model. Qed.
+Print Assumptions C06_source_attempt_is_model.
 
 (** * Non-vacuity: fails while retryCounter < 3, linear back-off 1/2 capped at 3/4 *)
 Definition lib6 : library :=
